@@ -109,20 +109,21 @@ def gen_explore_cases(tier, g, rnd):
     k_target = 20 if thorough else 2
     for k in range(len(S.prods)):
         for rep in range(k_target):
-            for e in rnd.sample(['block', 'sdl', 'fragment', 'migration', 'extension'], 5):
+            for e in rnd.sample(['block', 'sdl', 'sdlmod', 'fragment', 'migration', 'extension'], 6):
                 t = S.sample(e, rnd, budget=rnd.choice([6, 12, 25]), target_prod=k)
                 if t is not None:
-                    cases.append((e, t, 'grammar-target'))
+                    cases.append((G.REAL_ENTRY.get(e, e), t, 'grammar-target'))
                     break
     nfree = 40000 if thorough else 1200
     for _ in range(nfree):
-        e = rnd.choice(['block', 'block', 'fragment', 'sdl', 'sdl', 'migration', 'extension'])
+        e = rnd.choice(['block', 'block', 'fragment', 'sdl', 'sdlmod', 'migration', 'extension'])
         t = S.sample(e, rnd, budget=rnd.choice([8, 15, 30, 60]))
         if t is not None:
-            cases.append((e, t, 'grammar-free'))
+            cases.append((G.REAL_ENTRY.get(e, e), t, 'grammar-free'))
     # standard library statements
     libs = lib_texts(lib.REPO, rnd, 3000 if thorough else 250)
     cases += [('block', s, 'stdlib') for s in libs]
+    cases += [(e, t, 'template') for e, t in G.DDL_TEMPLATES]
     # string literals: every ordered pair of character classes in every quoting style
     cases += [(e, t, 'string-classes') for e, t in G.string_class_texts(rnd, 3 if thorough else 2)]
     # statements in every statement position (hole x statement form, exhaustive) + two-level nesting
@@ -186,63 +187,62 @@ def coverage_state(outs):
 
 def force_coverage(S, rnd, edge_targets, cases, outs, tier):
     """Adaptive rounds: for every production / (parent, position, child) edge that no ACCEPTED text has used yet,
-    derive texts that use it (shortest context, minimal or small random fillers) until the real parser accepts one.
-    The new cases are appended to cases / outs and judged by the same monitors.  -> statistics"""
-    rounds = 8 if tier == 'thorough' else 5
-    entries = ['block', 'sdl', 'fragment', 'migration', 'extension']
+    derive texts that use it (shortest context, minimal or small random fillers, plain token spellings) until the
+    real parser accepts one.  The new cases are appended to cases / outs and judged by the same monitors."""
+    plan = [4, 6, 8, 10, 12] if tier == 'thorough' else [3, 5, 8]
+    entries = ['sdlmod', 'block', 'sdl', 'fragment', 'migration', 'extension']
     stats = {'rounds': []}
     seen = {(e, t) for e, t, _ in cases}
     want_p = [pid for pid, k in sorted(S.k_of.items()) if k not in S.unobservable and S.prodlen[k] < 10 ** 9]
-    for rno in range(rounds):
-        prods, edges = coverage_state(outs)
-        miss_p = [p for p in want_p if p not in prods]
-        miss_e = [t for t in edge_targets if t not in edges]
-        stats['rounds'].append({'unreached_productions': len(miss_p), 'unreached_edges': len(miss_e)})
-        if not miss_p and not miss_e:
-            break
-        per = 2 if rno < 2 else 3
-        new = []
-        for pid in miss_p:
-            n = 0
-            for e in entries:
-                for _ in range(per):
-                    t = S.sample(e, rnd, budget=rnd.choice([0, 2, 6]), target_prod=S.k_of[pid])
-                    if t is not None and (e, t) not in seen:
-                        seen.add((e, t))
-                        new.append((e, t, 'grammar-force'))
-                        n += 1
-                if n >= 2 * per:
-                    break
-        for pid, pos, cid in miss_e:
-            n = 0
-            for e in entries:
-                for _ in range(per):
-                    t = S.sample_edge(e, rnd, pid, pos, cid, budget=rnd.choice([0, 0, 2, 4]))
-                    if t is not None and (e, t) not in seen:
-                        seen.add((e, t))
-                        new.append((e, t, 'grammar-force'))
-                        n += 1
-                if n >= per:
-                    break
-        if not new:
-            break
-        stats['rounds'][-1]['generated'] = len(new)
-        o2 = explore(new)
-        stats['rounds'][-1]['accepted'] = sum(x.get('acc', 0) for x in o2)
-        cases.extend(new)
-        outs.extend(o2)
+    S.safe = True
+    try:
+        for per in plan:
+            prods, edges = coverage_state(outs)
+            miss_p = [p for p in want_p if p not in prods]
+            miss_e = [t for t in edge_targets if t not in edges]
+            stats['rounds'].append({'unreached_productions': len(miss_p), 'unreached_edges': len(miss_e)})
+            if not miss_p and not miss_e:
+                break
+            new = []
+
+            def gen(fn):
+                n = 0
+                for e in entries:
+                    for j in range(per):
+                        t = fn(e, [0, 0, 2, 4, 8][j % 5])
+                        if t is None:
+                            break
+                        re_ = G.REAL_ENTRY.get(e, e)
+                        if (re_, t) not in seen:
+                            seen.add((re_, t))
+                            new.append((re_, t, 'grammar-force'))
+                            n += 1
+                    if n >= per:
+                        break
+            for pid in miss_p:
+                gen(lambda e, b, pid=pid: S.sample(e, rnd, budget=b, target_prod=S.k_of[pid]))
+            for pid, pos, cid in miss_e:
+                gen(lambda e, b, t=(pid, pos, cid): S.sample_edge(e, rnd, t[0], t[1], t[2], budget=b))
+            if not new:
+                break
+            stats['rounds'][-1]['generated'] = len(new)
+            o2 = explore(new)
+            stats['rounds'][-1]['accepted'] = sum(x.get('acc', 0) for x in o2)
+            cases.extend(new)
+            outs.extend(o2)
+    finally:
+        S.safe = False
     prods, edges = coverage_state(outs)
     g = S.g
+    nm = lambda i: ' '.join(g['production_names'][i])
     stats['productions_observable'] = len(want_p)
     stats['productions_reached'] = len([p for p in want_p if p in prods])
     stats['edges_total'] = len(edge_targets)
     stats['edges_reached'] = len([t for t in edge_targets if t in edges])
-    stats['unobservable_productions'] = sorted(' '.join(g['production_names'][S.id_of[k]]) for k in S.unobservable if k in S.id_of)
-    stats['ungeneratable_productions'] = sorted(' '.join(g['production_names'][i]) for i in S.unmapped_ids)
-    stats['unreached_productions'] = sorted(' '.join(g['production_names'][p]) for p in want_p if p not in prods)
-    un_e = [t for t in edge_targets if t not in edges]
-    stats['unreached_edges'] = ['%s[%d] <- %s' % (' '.join(g['production_names'][a]), b, ' '.join(g['production_names'][c]))
-                                for a, b, c in un_e]
+    stats['unobservable_productions'] = sorted(nm(S.id_of[k]) for k in S.unobservable if k in S.id_of)
+    stats['ungeneratable_productions'] = sorted(nm(i) for i in S.unmapped_ids)
+    stats['unreached_productions'] = sorted(nm(p) for p in want_p if p not in prods)
+    stats['unreached_edges'] = ['%s[%d] <- %s' % (nm(a), b, nm(c)) for a, b, c in edge_targets if (a, b, c) not in edges]
     return stats
 
 
@@ -341,6 +341,12 @@ def _sp_quoted(case, res, f):
 
 CG = 'edb/edgeql/codegen.py'
 FINDINGS = [
+    Finding('C01-typeop-left-typeof-introspect', 'same-ast', f'{CG}::visit_TypeOp (left operand printed bare; _visit_left_operand is not used here)',
+            'a type operator `|` / `&` whose LEFT operand is TYPEOF <expr> where <expr> ends (on its right spine) in INTROSPECT <type>; the re-parsed tree is '
+            'the input with the type operator pushed under that INTROSPECT',
+            '`x IS ((TYPEOF INTROSPECT T) | U)` prints `(x IS (TYPEOF INTROSPECT T | U))` = TYPEOF INTROSPECT (T | U): residual of the repaired '
+            'C01-prefix-left-operand (visit_TypeOp was not changed)',
+            tag='prefix-left-operand', sig=r'\|TypeOp\([&|]\)>TypeOf$'),
     Finding('C01-prefix-left-operand', 'same-ast', f'{CG}::visit_BinOp/visit_IsOp/visit_TypeOp/visit_IfElse + visit_UnaryOp/visit_TypeCast/visit_DetachedExpr/visit_Introspect/visit_TypeOf/visit_Constant',
             'the left operand of a binary / IS / type operator (or the first operand of python-style IF..ELSE) is, or ends on its right spine '
             '(UnaryOp.operand, TypeCast.expr, DetachedExpr.expr, Introspect.type, TypeOf.expr) in, a prefix form (+x, -x, NOT x, EXISTS x, DISTINCT x, '
@@ -395,6 +401,22 @@ FINDINGS = [
             feat='function-from-function-plus-body',
             special=lambda c, r, f: (f['kind'] == 'same-ast' and bool(re.search(r'FunctionCode\.code\|str>None$|\.nativecode\|', f.get('sig') or '')))
             or (f['kind'] == 'reparse' and 'language is not supported in USING FUNCTION' in (f.get('sig') or '') + (f.get('detail') or ''))),
+    Finding('C01-extension-package-migration-to-version', 'reparse', f'{CG}::visit_CreateExtensionPackageMigration / visit_DropExtensionPackageMigration',
+            'CREATE / DROP EXTENSION PACKAGE <name> MIGRATION FROM VERSION <a> TO VERSION <b>',
+            "the second VERSION keyword is not printed: `... migration from  version '1.0' to '2.0'` -- rejected (Missing keyword 'VERSION')",
+            sig=r"Missing keyword 'VERSION'", printed=r"extension\s+package\s+\S+\s+migration\s+from\s+version\s+\S+\s+to\s+(?!version)"),
+    Finding('C01-drop-extension-version', 'same-ast', f'{CG}::visit_DropExtension (_visit_DropObject)',
+            "DROP EXTENSION <name> VERSION '<v>'",
+            "printed as `drop extension <name>;`: the version is lost (DropExtension.version Constant -> None)",
+            sig=r"DropExtension\.version\|Constant>None$", printed=r"drop\s+extension\s+(?!package)[^;]*?(;|$)"),
+    Finding('C01-sdl-overloaded-computed', 'reparse', f'{CG}::visit_CreateConcreteLink / visit_CreateConcreteProperty / visit_CreateConcreteUnknownPointer (SDL short form)',
+            'SDL declaration `overloaded [required|optional] [single|multi] [link|property] p { using (<expr>) }` (computed pointer written with a body)',
+            "printed in the short form `overloaded ... p := (<expr>);`, which the grammar does not have for OVERLOADED (Unexpected ':=')",
+            sig=r"Unexpected ':='", printed=r"\boverloaded\s+[^;{}]*?:="),
+    Finding('C01-sdl-trigger-qualified-name', 'same-ast', f'{CG}::visit_CreateTrigger',
+            'SDL trigger declared with a module-qualified name (`trigger a::b after insert ...`; the DDL form rejects such names, the SDL grammar accepts them)',
+            'only the short name is printed: CreateTrigger.name.module is lost',
+            sig=r"CreateTrigger\.name/ObjectRef\.module\|str>None$"),
     Finding('C01-partial-reserved-bare', 'reparse|same-ast', 'edb/edgeql/quote.py::needs_quoting (only RESERVED_KEYWORD is consulted)',
             'an identifier `union`, `except` or `intersect` (partial reserved keywords) that the input had to quote',
             'printed bare; in expression position the parser reads the keyword',
@@ -504,6 +526,11 @@ REPLAYS = {
     'C01-subtype-label': ('fragment', '<tuple<a: T | U>>x'),
     'C01-alter-empty-body': ('block', 'ALTER ROLE r { }'),
     'C01-partial-reserved-bare': ('block', 'SELECT `union`.age'),
+    'C01-typeop-left-typeof-introspect': ('fragment', 'x is ((typeof introspect T) | U)'),
+    'C01-sdl-overloaded-computed': ('sdl', 'module default { type T { overloaded p { using (1) } } }'),
+    'C01-sdl-trigger-qualified-name': ('sdl', 'module default { type T { trigger a::b after insert for all do (1) } }'),
+    'C01-extension-package-migration-to-version': ('block', "create extension package foo migration from version '1.0' to version '2.0';"),
+    'C01-drop-extension-version': ('block', "drop extension foo version '1.0';"),
     'C01-operator-multi-using-bare': ('block', "create infix operator std::`||` (a: int64, b: int64) -> int64 { using sql operator '||'; using sql function 'array_cat'; };"),
     'C01-function-from-function-plus-body': ('block', "create function f(a: int64) -> int64 { using sql function 'foo'; using sql $$select 1$$; };"),
     'C01-quoted-ident-bare': ('block', 'DECLARE SAVEPOINT `my name`'),
@@ -573,6 +600,8 @@ def triage(argv):
     g = load_grammar()
     rnd = lib.rng('C01explore')
     t0 = time.time()
+    S = G.GrammarSampler(g)
+    edge_targets = coverage_setup(S)
     cases = gen_explore_cases(tier, g, rnd)
     print('generated', len(cases), 'in', round(time.time() - t0, 1))
     t0 = time.time()
@@ -583,6 +612,9 @@ def triage(argv):
         cases = [tuple(c) for c in cases]
     else:
         outs = explore(cases)
+        st = force_coverage(S, lib.rng('C01force'), edge_targets, cases, outs, tier)
+        print('forced coverage:', json.dumps({k: v for k, v in st.items() if k != 'unreached_edges'}, indent=1))
+        print('unreached edges:', len(st['unreached_edges']))
         json.dump([cases, outs], open(cpath, 'w'))
     print('explored in', round(time.time() - t0, 1))
     acc = sum(o.get('acc', 0) for o in outs)
@@ -1057,10 +1089,15 @@ def run(tier):
     # ---- exploration on the real code
     g = load_grammar()
     rnd = lib.rng('C01explore')
+    S = G.GrammarSampler(g)
+    edge_targets = coverage_setup(S)
     cases = gen_explore_cases(tier, g, rnd)
     replay_cases = [(REPLAYS[k][0], REPLAYS[k][1], 'finding-replay:' + k) for k in REPLAYS]
     cases = replay_cases + cases
     outs = explore(cases)
+    phases['exploration-first-pass'] = round(time.time() - t_ph, 1)
+    # productions / optional clauses no accepted text has used yet are forced (adaptive rounds)
+    forced = force_coverage(S, lib.rng('C01force'), edge_targets, cases, outs, tier)
 
     phases['exploration'] = round(time.time() - t_ph, 1)
     t_ph = time.time()
@@ -1210,6 +1247,7 @@ def run(tier):
             'texts': len(cases), 'accepted': acc, 'accepted_by_entry': dict(entry_acc),
             'generated_by_origin': dict(byorig), 'accepted_by_origin': dict(accorig),
             'productions_reached': len(prods), 'productions_total': len(g['production_names']),
+            'forced_coverage': forced,
             'operator_pairs_reached': len(pairs), 'ast_node_classes_reached': len(nodes),
             'tree_depth_histogram': {str(k): v for k, v in sorted(depth_hist.items())},
             'rejection_kinds_top': dict(rej_kinds.most_common(8)),
